@@ -6,6 +6,7 @@ mod model;
 mod monitors;
 mod oracle;
 mod rng;
+mod sim;
 
 use framework::{Monitor, RunConfig, Tier};
 
